@@ -228,7 +228,11 @@ def run_cell(case: Dict[str, Any]) -> Dict[str, Any]:
                 scope = anyio.move_on_after(case.get("enter_deadline", 0.01))
             else:
                 scope = anyio.CancelScope() if exit_path != "move_on_after" else anyio.move_on_after(case.get("deadline", 0.6))
-            with scope:
+            import contextlib
+
+            # the application may run everything under a generous overall deadline of its own (never reached here)
+            outer = anyio.fail_after(case["outer_deadline"]) if case.get("outer_deadline") else contextlib.nullcontext()
+            with outer, scope:
                 # the context may be the client class, the stdio_client() function or the transport wrapper
                 entry = case.get("entry", "client")
                 if entry == "function":
@@ -554,7 +558,7 @@ def check(case: Dict[str, Any]) -> Outcome:
     out = Outcome()
     beh, exit_path = case["child"], case["exit"]
     out.nontrivial = beh != "well_behaved" or exit_path != "normal"
-    out.classes = (f"child:{beh}", f"exit:{exit_path}", f"moment:{case.get('moment', 'before_first')}", f"entry:{case.get('entry', 'client')}") + ((("server-env:" + ",".join(f"{k_}={v_}" for k_, v_ in sorted(case["env"].items()))),) if case.get("env") else ())
+    out.classes = (f"child:{beh}", f"exit:{exit_path}", f"moment:{case.get('moment', 'before_first')}", f"entry:{case.get('entry', 'client')}") + (("inside-an-outer-deadline",) if case.get("outer_deadline") else ()) + ((("server-env:" + ",".join(f"{k_}={v_}" for k_, v_ in sorted(case["env"].items()))),) if case.get("env") else ())
     obs = run_cell_guarded(case)
     fails = judge(case, obs)
     if not fails:
@@ -617,6 +621,12 @@ def cells(full: bool) -> List[Dict[str, Any]]:
                 if env:
                     c_["env"] = env
                 cs.append(c_)
+    # the whole session inside an outer deadline the application set for itself (far away): exits stay as prompt as without
+    k_ = 0
+    for beh in ("ignore_sigterm", "ignore_sigterm+flood", "well_behaved", "never_reads"):
+        for ex in (("normal", "exception", "cancel", "move_on_after") if full else ("normal", "exception")):
+            k_ += 1
+            cs.append({"child": beh, "exit": ex, "moment": MOMENTS[k_ % 3], "entry": ENTRIES[k_ % 3], "outer_deadline": [12.0, 20.0][k_ % 2]})
     # make sure the classic combination is always there
     extra = {"child": "ignore_sigterm", "exit": "cancel", "moment": "before_first"}
     if extra not in cs:
